@@ -15,18 +15,40 @@ use crate::dcps::channels::notification::notification;
 use crate::dcps::channels::oneshot::oneshot;
 use crate::futil::{block_on, poll_once, TestWaker};
 use crate::infrastructure::error::DdsError;
-use crate::{oracle, outcome, soft_finding, Cfg, Harness};
+use crate::{oracle, outcome, soft_finding, Harness};
 
 pub fn harnesses() -> Vec<Harness> {
+    // heaviest first: harness k runs in shard k mod n
     vec![
+        Harness {
+            name: "mpsc/3p1s",
+            threads: 4,
+            what: "3 producers x 1 send || consumer receives 3: each value exactly once",
+            build: |_| Box::new(|| mpsc_producers(3, 1)),
+        },
+        Harness {
+            name: "mail/request-reply",
+            threads: 3,
+            what: "2 API callers: send (id, oneshot reply sender) through the mpsc queue, block on the reply || worker: receive 2 mails, answer the first, drop the second unanswered: Ok(id*10) and Err(AlreadyDeleted)",
+            build: |_| Box::new(mail_request_reply),
+        },
         Harness {
             name: "mpsc/2p2s",
             threads: 3,
             what: "2 producers x 2 sends || consumer receives 4: each value once, FIFO per producer, no 5th value",
-            build: |cfg| {
-                let sends = if cfg.thorough { 2 } else { 2 };
-                Box::new(move || mpsc_producers(2, sends))
-            },
+            build: |_| Box::new(|| mpsc_producers(2, 2)),
+        },
+        Harness {
+            name: "notification/clone-drop-wait",
+            threads: 3,
+            what: "A: clone, drop original, notify on clone, drop clone || B: drop other sender || wait == Ok then Err",
+            build: |_| Box::new(notif_clone_drop_wait),
+        },
+        Harness {
+            name: "notification/two-notifiers",
+            threads: 3,
+            what: "A: notify || B: notify || wait == Ok; the second notification may coalesce (flag semantics), never more than 2",
+            build: |_| Box::new(notif_two_notifiers),
         },
         Harness {
             name: "oneshot/send-recv",
@@ -71,22 +93,10 @@ pub fn harnesses() -> Vec<Harness> {
             build: |_| Box::new(mpsc_recv_dropped),
         },
         Harness {
-            name: "mpsc/3p1s",
-            threads: 4,
-            what: "3 producers x 1 send || consumer receives 3: each value exactly once",
-            build: |_| Box::new(|| mpsc_producers(3, 1)),
-        },
-        Harness {
             name: "notification/notify-wait",
             threads: 2,
             what: "notify || wait == Ok; afterwards (a sender still alive) the flag is consumed: Pending",
             build: |_| Box::new(notif_notify_wait),
-        },
-        Harness {
-            name: "notification/clone-drop-wait",
-            threads: 3,
-            what: "A: clone, drop original, notify on clone, drop clone || B: drop other sender || wait == Ok then Err",
-            build: |_| Box::new(notif_clone_drop_wait),
         },
         Harness {
             name: "notification/last-drop-wait",
@@ -99,12 +109,6 @@ pub fn harnesses() -> Vec<Harness> {
             threads: 2,
             what: "notify; drop(last sender) || wait == Ok (notification not lost), second wait == Err",
             build: |_| Box::new(notif_notify_then_drop),
-        },
-        Harness {
-            name: "notification/two-notifiers",
-            threads: 3,
-            what: "A: notify || B: notify || wait == Ok; the second notification may coalesce (flag semantics), never more than 2",
-            build: |_| Box::new(notif_two_notifiers),
         },
     ]
 }
@@ -284,6 +288,37 @@ fn mpsc_recv_dropped() {
     let tx = t.join().unwrap();
     let r = tx.send(4);
     outcome(format!("mpsc/recv-dropped/send-after-drop/{}", if r.is_ok() { "Ok" } else { "Err(Closed)" }));
+}
+
+// ---- mpsc + oneshot: the mail pattern between API callers and the worker -------------------------------------
+
+fn mail_request_reply() {
+    use crate::dcps::channels::oneshot::OneshotSender;
+    let (tx, rx) = mpsc_channel::<(u32, OneshotSender<u32>)>();
+    let mut callers = Vec::new();
+    for id in 1..=2u32 {
+        let txc = tx.clone();
+        callers.push(thread::spawn(move || {
+            let (reply_tx, reply_rx) = oneshot::<u32>();
+            txc.send((id, reply_tx)).expect("send on open channel");
+            (id, block_on(reply_rx))
+        }));
+    }
+    // worker: answers the first mail, drops the second without answering
+    let (id_a, reply_a) = block_on(rx.receive()).expect("mail 1");
+    reply_a.send(id_a * 10);
+    let (id_b, reply_b) = block_on(rx.receive()).expect("mail 2");
+    oracle!(id_a != id_b, "fifo-or-duplicate", "the same mail {} was received twice", id_a);
+    drop(reply_b);
+    for c in callers {
+        let (id, r) = c.join().unwrap();
+        if id == id_a {
+            oracle!(r == Ok(id * 10), "wrong-value", "caller {} expected Ok({}), got {:?}", id, id * 10, r);
+        } else {
+            oracle!(r == Err(DdsError::AlreadyDeleted), "no-disconnection-error", "caller {} whose reply sender was dropped got {:?}", id, r);
+        }
+    }
+    outcome(format!("mail/request-reply/answered={id_a}/dropped={id_b}"));
 }
 
 // ---- notification ---------------------------------------------------------------------------------------------
